@@ -296,3 +296,13 @@ def check(ctx):
     names = ['attachments', 'attachments_with_vendor_and_conforms_to', 'attachment_with_vendor_and_conforms_to', 'attachment_payload', 'attachment_vendor', 'attachment_conforms_to',
              'validate_attachment', 'types', 'get_type', 'has_type', 'has_type_envelope', 'check_type', 'check_type_envelope']
     panic.slice_check(ctx, 'C19.7', [F.method1('Envelope', n) for n in names if F.method1('Envelope', n)], 'attachment/type')
+
+
+_check_before_errflow = check
+
+
+def check(ctx):
+    _check_before_errflow(ctx)
+    # C19.8 error discipline: no error of a fallible call is turned into "absent / false / default" outside the reviewed table
+    from .. import errflow
+    errflow.check(ctx, 'C19.8', ['src/extension/attachment/attachment_impl.rs', 'src/extension/attachment/attachments.rs', 'src/extension/types.rs'], 'attachment / type family')
